@@ -540,16 +540,19 @@ class ExcFlow:
                 digits = '0-9a-fA-F' if base == 16 else '0-9'
                 dom = f'{INT_WS}[+-]?[{digits}]+(?:_[{digits}]+)*{INT_WS}'
                 ok, why = self.group_language_ok(mod, fn, n.args[0], dom, 0, 4300 if base not in (2, 4, 8, 16, 32) else None)
-                add('ValueError', 'int', n, why if ok else None).text += '' if ok else f'  [{why}]'
+                # ok is None: where the text comes from could not be traced (a helper parameter, a table of converters) - no verdict,
+                # listed as undecided; a traced regex group whose language leaves the domain is a violation with a witness
+                add('ValueError', 'int', n, why if ok else (f'UNDECIDED: {why}' if ok is None else None)).text += '' if ok else f'  [{why}]'
             elif cn == 'float' and n.args and ev_const(n.args[0]) is None:
                 dom = f'{INT_WS}[+-]?(?:[0-9]+(?:_[0-9]+)*\\.?(?:[0-9]+(?:_[0-9]+)*)?|\\.[0-9]+(?:_[0-9]+)*)(?:[eE][+-]?[0-9]+(?:_[0-9]+)*)?{INT_WS}'
                 ok, why = self.group_language_ok(mod, fn, n.args[0], dom, 0, None)
-                add('ValueError', 'float', n, why if ok else None).text += '' if ok else f'  [{why}]'
+                add('ValueError', 'float', n, why if ok else (f'UNDECIDED: {why}' if ok is None else None)).text += '' if ok else f'  [{why}]'
             elif cn == 'chr' and n.args and ev_const(n.args[0]) is None:
                 iv, why = self.chr_interval(mod, fn, n)
                 ok = iv is not None and iv[0] >= 0 and iv[1] <= 0x10FFFF
-                add('ValueError', 'chr', n, f'argument interval {list(iv)} (by {why})' if ok else None).text += \
-                    '' if ok else f'  [argument interval {iv} ({why})]'
+                unknown = iv is None or (iv[0] == miniev.NEG_INF and iv[1] <= 0x10FFFF)       # nothing known about the lower end: the seed was not traced
+                add('ValueError', 'chr', n, f'argument interval {list(iv)} (by {why})' if ok else (
+                    f'UNDECIDED: argument interval {iv} ({why})' if unknown else None)).text += '' if ok else f'  [argument interval {iv} ({why})]'
             elif cn.split('.')[-1] in ('datetime', 'date') and cn.split('.')[0] in self.dt_names(mod) and n.args:
                 iv = miniev.interval(n.args[0], {}, ev_const)
                 consts = [ev_const(a) for a in n.args[1:3]]
